@@ -59,10 +59,12 @@ Viol(rec) ==
                        c == rec.ub.class
                        predictedOob == k >= 1 /\ k <= Len(rec.aw) /\ rec.aw[k].oob
                        key == IF c = "oob" /\ predictedOob THEN FamOob \o "|out-of-bounds"
-                              ELSE IF c \in {"heap-corruption", "signal", "segv", "double-free", "oob", "use-after-free"} /\ oobSoFar(k)
-                                   THEN FamOob \o "|crash-after-out-of-bounds-write"
-                              ELSE IF c = "misaligned" /\ k <= Len(rec.allocs) /\ rec.allocs[k].align > 1
+                              ELSE IF c = "misaligned" /\ k >= 1 /\ k <= Len(rec.allocs) /\ rec.allocs[k].align > 1
                                    THEN FamAlign \o "|misaligned-reference"
+                              \* after a write outside the buffers anything may follow: corrupted allocator metadata, a clobbered
+                              \* pointer inside the replay's own bookkeeping (seen as a wild / misaligned dereference), ...
+                              ELSE IF c \in {"heap-corruption", "signal", "segv", "double-free", "oob", "use-after-free", "misaligned"} /\ oobSoFar(k)
+                                   THEN FamOob \o "|crash-after-out-of-bounds-write"
                               ELSE "C38|unpredicted|" \o rec.status \o ":" \o c
                    IN {[k |-> k, pred |-> "NoUB", key |-> key, detail |-> rec.status \o " (" \o rec.ub.phase \o "): " \o rec.ub.msg]}
       cm   == IF rec.status = "done" /\ n # Len(rec.allocs)
